@@ -39,6 +39,8 @@ class Adapter(EnvAdapter):
                 c("r6c5_t7", 6, 5, 7, episodes=8, max_steps=10, policies=["survive", "masked", "survive", "random"]),
                 c("r4c7_t2", 4, 7, 2, episodes=6, max_steps=5, policies=mixed),
                 c("r5c4_t1", 5, 4, 1, episodes=6, max_steps=4, policies=["masked", "random", "survive"]),
+                # a TALL narrow well (19 padded rows): lines are completed within a few pieces, far from the top
+                c("r16c4_t400", 16, 4, 400, episodes=6, max_steps=40, policies=["survive", "masked", "well", "mostly_masked"]),
                 # synthetic start positions (random fill with overhangs / a 1-wide well): the real step and mask
                 # code on positions that play rarely reaches, 3- and 4-line clears included
                 c("r7c4_t400_pre", 7, 4, 400, episodes=14, max_steps=6, prefilled=True, policies=["well", "masked"]),
@@ -57,6 +59,8 @@ class Adapter(EnvAdapter):
             c("r7c4_t7", 7, 4, 7, episodes=40, max_steps=10, policies=mixed),
             c("r5c4_t1", 5, 4, 1, episodes=40, max_steps=4, policies=["masked", "random", "survive"]),
             c("r8c12_t3", 8, 12, 3, episodes=20, max_steps=6, policies=mixed),
+            c("r16c4_t400", 16, 4, 400, episodes=30, max_steps=60, policies=["survive", "masked", "well", "mostly_masked"]),
+            c("r24c5_t400", 24, 5, 400, episodes=12, max_steps=80, probe_every=2, policies=["survive", "masked", "well"]),
             c("r12c6_t60", 12, 6, 60, episodes=12, max_steps=63, probe_every=2, policies=["survive", "masked"]),
             c("r20c10_t400_well", 20, 10, 400, episodes=3, max_steps=300, probe_every=25, policies=["well"]),
             c("r7c4_t400_pre", 7, 4, 400, episodes=150, max_steps=6, prefilled=True, policies=["well", "masked"]),
